@@ -293,6 +293,14 @@ func (s *treeSpace) At(i int) dcase {
 		}
 	}
 	joined := i%2 == 0
+	if (i/2)%2 == 1 { // the order in which the paths are given must not matter
+		for a, b := 0, len(c.expand)-1; a < b; a, b = a+1, b-1 {
+			c.expand[a], c.expand[b] = c.expand[b], c.expand[a]
+		}
+		for a, b := 0, len(c.strs)-1; a < b; a, b = a+1, b-1 {
+			c.strs[a], c.strs[b] = c.strs[b], c.strs[a]
+		}
+	}
 	c.eArgs, c.sArgs = spell(c.expand, joined), spell(c.strs, !joined)
 	return c
 }
@@ -319,6 +327,17 @@ func newWildcardSpace(depth int) *listSpace {
 		{s: pathSet{{0}}},
 		{e: pathSet{{0}}, s: pathSet{{0, 0}}},
 		{e: pathSet{{3}, {2}}, s: pathSet{{3, 0}, {2, 0}}},
+		// a specific path and a wildcard path of the same length that covers it, in both orders, and a path given twice:
+		// what is selected is the union of the paths, whatever the order in which the flags arrive
+		{e: pathSet{{3}, {0}}},
+		{e: pathSet{{0}, {3}}},
+		{e: pathSet{{2}, {0}}, s: pathSet{{2, 1}, {0, 0}}},
+		{e: pathSet{{0}, {2}}, s: pathSet{{0, 0}, {2, 1}}},
+		{s: pathSet{{3}, {0}}},
+		{s: pathSet{{1}, {2}, {0}}},
+		{e: pathSet{{0}, {3, 1}, {0, 0}}},
+		{e: pathSet{{2}, {2}, {3}}, s: pathSet{{2, 2}, {2, 2}}},
+		{e: pathSet{{3}, {2, 0}, {2}, {0, 3}}},
 	}
 	seen := map[string]bool{}
 	for _, m := range treeLevel(depth) {
